@@ -202,6 +202,47 @@ def nontrivial(case, res):
     return st['maxtime'] >= 1 and (len(st['exo']) > 0 or len(st['ics']) > 0 or len(st['lagged']) > 0)
 
 
+def gen_object_case(rng):
+    """Exogenous variables supplied as Python objects (list / tuple / float) in Parser.Exogenous, as the
+    library's own float-exogenous test does, some longer than the horizon."""
+    T = rng.choice([1, 2, 3, 5])
+    objs = []
+    for nm in ('ga', 'gb', 'gc')[:rng.randint(1, 3)]:
+        kind = rng.choice(['list', 'tuple', 'float'])
+        if kind == 'float':
+            objs.append([nm, 'float', round(rng.uniform(-5, 5), 2)])
+        else:
+            n = T + 1 + rng.choice([0, 0, 1, 3, 7])
+            objs.append([nm, kind, [round(rng.uniform(-5, 5), 2) for _ in range(n)]])
+    return {'T': T, 'objs': objs}
+
+
+def oracle_objects(c):
+    from sfc_models.equation_solver import EquationSolver
+    names = [o[0] for o in c['objs']]
+    block = 'x = 0.5*LAG_x + %s\nLAG_x = x(k-1)\nMaxTime = %d' % (' + '.join(names), c['T'])
+    s = EquationSolver(run_equation_reduction=False)
+    s.ParseString(block)
+    for nm, kind, val in c['objs']:
+        s.Parser.Exogenous.append((nm, float(val) if kind == 'float' else (list(val) if kind == 'list' else tuple(val))))
+    s.SolveEquation()
+    fails = []
+    T = c['T']
+    for nm, kind, val in c['objs']:
+        want = [float(val)] * (T + 1) if kind == 'float' else [float(v) for v in val[:T + 1]]
+        got = list(s.TimeSeries[nm])
+        if got != want:
+            fails.append({'key': 'exogenous:object-not-honoured',
+                          'what': 'exogenous %s supplied as a %s object: series %r, expected the first horizon+1 values %r' % (nm, kind, got, want),
+                          'replay': {'kind': 'objects', 'case': c}})
+    for nm, ser in s.TimeSeries.items():
+        if len(ser) != T + 1:
+            fails.append({'key': 'lengths:not-horizon-plus-one', 'what': 'series %s has %d values, horizon+1 = %d (object exogenous)' % (nm, len(ser), T + 1),
+                          'replay': {'kind': 'objects', 'case': c}})
+            break
+    return fails
+
+
 def run(ctx):
     out = common.Outcome()
     out.proof = common.proof_status(FAMILY, PROPFILE)
@@ -232,7 +273,11 @@ def run(ctx):
         m = gen_model_case(ctx.rng)
         forms[m['form'] + '/' + m['how_T']] = forms.get(m['form'] + '/' + m['how_T'], 0) + 1
         out.failures.extend(sc.guarded(oracle_model, m, 'model:hang', 'model'))
-    out.evaluations = len(cases) + nm
+    nobj = ctx.scale(80, 800)
+    for _ in range(nobj):
+        out.failures.extend(sc.guarded(oracle_objects, gen_object_case(ctx.rng), 'objects:hang', 'objects'))
+    stats['object_exogenous_cases'] = nobj
+    out.evaluations = len(cases) + nm + nobj
     out.nontrivial = len(seen)
     out.rule = ('random equation blocks (shared solver generator) weighted towards exogenous specifications (list, tuple, '
                 '[c]*n, int list, float scalar, too short, int scalar, unevaluable), initial conditions on endogenous / lagged '
@@ -268,6 +313,8 @@ def replay(path):
         fails = oracle(r['case'], res)
     elif r.get('kind') == 'model':
         fails = oracle_model(r['case'])
+    elif r.get('kind') == 'objects':
+        fails = oracle_objects(r['case'])
     else:
         print('replay names a proof/correspondence obligation, nothing to execute:', json.dumps(obj)[:600])
         return 1
